@@ -263,10 +263,15 @@ package fsm
 //@   pure
 //@   ensures bytes(result) == pausedKey(maxPausedHeight, addrOf(address))
 
-// a validator that is already unstaking is never scheduled again (a second marker would outlive the
-// record): every caller must establish this
+// a validator that is already unstaking is never scheduled for a DIFFERENT height (a second marker
+// would outlive the record); re-writing the marker it already has (genesis import) is fine.
+// Every caller in the repository must establish this (requires-propagation).
 //@ func (*StateMachine).SetValidatorUnstaking
-//@   requires[notyet] validator.UnstakingHeight == 0
+//@   requires[notyet] validator.UnstakingHeight == 0 || validator.UnstakingHeight == finishUnstakingHeight
+// parameter reads do not write state
+//@ func (*StateMachine).GetParamsVal
+//@   trusted
+//@   pure
 //@ func (*StateMachine).SetValidatorUnstakingIfBelowMinimum
 //@   ensures[skip] old(validator.UnstakingHeight) != 0 ==> !result0 && result1 == nil
 
